@@ -426,6 +426,10 @@ func c01ClientVerify(c *core.Ctx) {
 			return true
 		},
 	}
+	// the end-of-stream check may live in a helper of the reader
+	facts.NewInliner(&ff, func(h *ssa.Function) bool {
+		return h.Pkg == rd.Pkg && h.Signature.Recv() != nil && structName(h.Signature.Recv().Type()) == "blobReader"
+	})
 	flow := facts.PathFlow(rd, ff)
 	n := 0
 	for _, r := range returnsOf(rd) {
